@@ -294,6 +294,12 @@ func (e *Exec) run(ct *Contract, fi *FuncInfo, lit *ast.FuncLit) {
 			e.assert(r.st, name, "postcondition", phi, en.Text, fmt.Sprintf("%s:%d", shortFile(en.File), en.Line), mv)
 		}
 	}
+	for _, k := range ct.TempKinds {
+		if e.allocKinds[k] {
+			delete(e.allocKinds, k)
+			e.externs["temporary allocation ("+k+") in "+ct.Key+" assumed not to escape (temporaries clause)"] = true
+		}
+	}
 	if ct.Allocs && len(ct.AllocT) > 0 {
 		// the declared allocation kinds must cover what the body (and its callees) allocates
 		decl := map[string]bool{}
@@ -301,6 +307,9 @@ func (e *Exec) run(ct *Contract, fi *FuncInfo, lit *ast.FuncLit) {
 			decl[k] = true
 		}
 		for _, k := range keysOf(e.allocKinds) {
+			if decl["any"] {
+				break
+			}
 			if !decl[k] {
 				if k == "cell" || k == "map" {
 					// temporaries (an address-of cell, a scratch map): noted, not an error - callers are told nothing about
